@@ -158,23 +158,7 @@ def run(ctx, rep):
         order = [n['method'] for n in find_all(farm[0]['body'], lambda n: n.get('k') == 'mcall') if n['method'] in ('define', 'new_context')]
         ok = order[:2] == ['define', 'new_context']
     rep.ob(ok, 'R12.3', 'compiler::Compiler::compile_expression', 'Expr::Function', 'define(name) precedes new_context() (the body can call itself)', 'src/compiler.rs')
-    # R12.4
-    sites = [s for s in psc.census(ctx) if s['fn'] == fn.path and s['block'] in call['region'] and s['kind'] == 'assert']
-    for s in sites:
-        okv, why = c05.verdict_for(ctx, s)
-        rep.ob(okv, 'R12.4', fn.path, 'Call arm %s#%d' % (s['what'], s['ord']),
-               why if okv else 'unguarded arithmetic on the stack length / argument count: %s (%s)' % (str(sym(fn, s['term']['cond']))[:120], why), span_loc(s['span']))
-    ncast = 0
-    for b in sorted(call['region']):
-        for st in fn.blocks[b]['stmts']:
-            if st['k'] == 'assign' and st['rv']['k'] == 'cast' and st['rv']['ck'] == 'IntToInt' and st['rv']['from'] in ('usize', 'u64') and st['rv']['to'] in ('u16', 'u8'):
-                ncast += 1
-                val = sym(fn, st['rv']['op'])
-                facts = psc.facts_at(fn, b)
-                guarded = any(f[0] in ('Le', 'Lt') and strip(f[1]) == strip(val) for f in facts)
-                rep.ob(guarded, 'R12.4', fn.path, 'Call arm truncating cast %s as %s' % (st['rv']['from'], st['rv']['to']),
-                       'the stack length is narrowed to 16 bits without a bound check: beyond 65535 slots the frame base silently wraps', span_loc(st['span']))
-    rep.count('call_arm_casts', ncast)
+    check_frame_arith(ctx, rep, 'R12.4')
 
 
 def call_trip_value(call):
@@ -205,3 +189,29 @@ def base_form(v):
     if 'len' in s_ and 'read_u8' in s_ and ('checked_sub' in s_ or 'Sub' in s_):
         return 'len-1-argc' if s_.count('1_') >= 1 else 'other'
     return 'other'
+
+
+def check_frame_arith(ctx, rep, rule):
+    F = ctx.facts()
+    v = vmx.vmx(ctx)
+    fn = v['fn']
+    call = v['arms'].get('Call')
+    # R12.4
+    sites = [s for s in psc.census(ctx) if (s['fn'] == fn.path and s['block'] in call['region'] and s['kind'] == 'assert')
+             or (s['fn'] in ('vm::VM::get_local', 'vm::VM::set_local', 'vm::VM::pushframe', 'vm::VM::popframe') and s['kind'] == 'assert')]
+    for s in sites:
+        okv, why = c05.verdict_for(ctx, s)
+        rep.ob(okv, rule, s['fn'], ('Call arm ' if s['fn'] == fn.path else 'frame arithmetic ') + '%s#%d' % (s['what'], s['ord']),
+               why if okv else 'unguarded arithmetic on the stack length / argument count: %s (%s)' % (str(sym(fn, s['term']['cond']))[:120], why), span_loc(s['span']))
+    ncast = 0
+    for b in sorted(call['region']):
+        for st in fn.blocks[b]['stmts']:
+            if st['k'] == 'assign' and st['rv']['k'] == 'cast' and st['rv']['ck'] == 'IntToInt' and st['rv']['from'] in ('usize', 'u64') and st['rv']['to'] in ('u16', 'u8'):
+                ncast += 1
+                val = sym(fn, st['rv']['op'])
+                facts = psc.facts_at(fn, b)
+                guarded = any(f[0] in ('Le', 'Lt') and strip(f[1]) == strip(val) for f in facts)
+                rep.ob(guarded, rule, fn.path, 'Call arm truncating cast %s as %s' % (st['rv']['from'], st['rv']['to']),
+                       'the stack length is narrowed to 16 bits without a bound check: beyond 65535 slots the frame base silently wraps', span_loc(st['span']))
+    rep.count('call_arm_casts', ncast)
+
